@@ -1121,6 +1121,9 @@ pub fn avg_regions(k: usize) -> Vec<(String, u32, u32, String)> {
         ],
         // no region at all (an empty file): an empty result, whatever the thread count
         6 => vec![],
+        // regions that reach far beyond the 200-base chromosomes, two of them ending on the largest
+        // coordinate there is
+        7 => vec![(s("chr1"), 0, 8, s("first")), (s("chr1"), 96, 4_294_967_295, s("to_max")), (s("chr2"), 0, 4_294_967_295, s("all_to_max")), (s("chr1"), 16, 4_294_967_294, s("almost_max")), (s("chr2"), 8, 16, s("plain"))],
         // 41 rows, one of them 40 KB long (its name): longer than every buffer used to find the
         // line ends at which the parallel path cuts the file
         5 => {
@@ -1168,6 +1171,8 @@ pub fn avg_tool_cases(quick: bool) -> Vec<AvgTool> {
     v.push(AvgTool { file: 0, regions: 5, namecol: Some(s("interval")), min_max: true, final_newline: false });
     v.push(AvgTool { file: 0, regions: 4, namecol: Some(s("interval")), min_max: false, final_newline: false });
     v.push(AvgTool { file: 0, regions: 6, namecol: None, min_max: true, final_newline: false });
+    v.push(AvgTool { file: 0, regions: 7, namecol: None, min_max: true, final_newline: true });
+    v.push(AvgTool { file: 0, regions: 7, namecol: Some(s("interval")), min_max: false, final_newline: false });
     for file in 0..2 {
         for regions in 0..4 {
             for namecol in [None, Some("5"), Some("interval"), Some("none")] {
@@ -1228,7 +1233,8 @@ pub fn c17_tool(t: &AvgTool, out: &mut Outcome) {
         let mut sum = 0f64;
         let mut mn = f64::INFINITY;
         let mut mx = f64::NEG_INFINITY;
-        for p in *a..*b {
+        // (the chromosomes have 200 bases: nothing is stored beyond)
+        for p in *a..(*b).min(400) {
             if let Some(it) = items.iter().find(|i| i.0 <= p && p < i.1) {
                 bases += 1;
                 sum += it.2 as f64;
@@ -1333,7 +1339,10 @@ pub fn c17_tool(t: &AvgTool, out: &mut Outcome) {
             }
         }
     }
-    // values over bed
+    // values over bed (not for the regions of four thousand million bases: one number per base)
+    if t.regions == 7 {
+        return;
+    }
     let argv = vec![s("bigwigvaluesoverbed"), s("in.bw"), s("regions.bed"), s("vals.txt")];
     let r = run_in(dir, &argv);
     out.count("tool_values_runs", 1);
